@@ -160,7 +160,9 @@ Record zrd := mkZr {
   z_outoff : N;             (* OutputOffset *)
   z_end : option err;       (* None = clean io.EOF *)
   z_used : N;               (* InputOffset once the end is reached *)
-  z_sync_ok : bool          (* last four chunk bytes are 00 00 ff ff *)
+  z_sync_ok : bool;         (* last four chunk bytes are 00 00 ff ff *)
+  z_joined : bool           (* the final status (io.EOF or the error) is returned by the very
+                               zr.Read call that hands over the last byte of z_rest *)
 }.
 
 Record xr := mkXR {
@@ -182,12 +184,82 @@ Definition chk_typ (s : xr) : Z := snd (r_chk s).
 Definition is_sync (l : list byte) : bool :=
   list_eqb N.eqb (skipn (length l - 4) l) [0; 0; 255; 255] && (4 <=? length l)%nat.
 
+(* When compress/flate hands decoded bytes over to Read (inflate.go, every
+   assignment to f.toRead): when its 32 KiB window is full; at an empty stored
+   block (the sync marker); at the end of the final block; when it fails.
+   Read returns the status f.err with the call that drains f.toRead, so the
+   final status (io.EOF or the error) comes together with the bytes decoded
+   since the last hand-over that had no status - if there are any - and in a
+   call of its own otherwise.  An empty stored block that is the final block
+   sets io.EOF in the same step, so its hand-over has the status.
+   [yrun] follows [run] and records the Yield requests (Flate/Spec.v issues
+   one per empty stored block): (output length at the last Yield but one,
+   output length at the last Yield, bits consumed at the last Yield). *)
+Fixpoint yrun {A} (p : prog A) (s : ast) (y : N * N * N) : result A * (N * N * N) :=
+  match p with
+  | Ret a => (Done a s, y)
+  | Throw e => (Fail e s, y)
+  | Bit k =>
+    match a_in s with
+    | [] => (Fail EUEOF s, y)
+    | b :: r => yrun (k b) (mkAst r (a_pos s + 1) (a_out s) (a_len s)) y
+    end
+  | AlignP k =>
+    let n := N.to_nat (pad_count (a_pos s)) in
+    if Nat.leb n (length (a_in s))
+    then yrun (k (bits_val (firstn n (a_in s))))
+              (mkAst (skipn n (a_in s)) (a_pos s + N.of_nat n) (a_out s) (a_len s)) y
+    else (Fail EUEOF s, y)
+  | IsEof k => yrun (k (match a_in s with [] => true | _ => false end)) s y
+  | Pos k => yrun (k (a_pos s)) s y
+  | Put b k => yrun k (mkAst (a_in s) (a_pos s) (b :: a_out s) (a_len s + 1)) y
+  | Copy d l k =>
+    if (0 <? d) && (d <=? a_len s)
+    then yrun k (mkAst (a_in s) (a_pos s)
+                       (copy_chunks (S (N.to_nat l)) (N.to_nat l) (N.to_nat d) (a_out s)) (a_len s + l)) y
+    else (Fail EPanic s, y)
+  | Hist k => yrun (k (a_len s)) s y
+  | HistB d k => yrun (k (if (0 <? d) && (d <=? a_len s)
+                          then nth (N.to_nat d - 1) (a_out s) 0 else 0)) s y
+  | Yield k => yrun k s (snd (fst y), a_len s, a_pos s)
+  end.
+
+(* [yrun] is [run] with a record of the Yields *)
+Lemma yrun_run {A} (p : prog A) : forall s y, fst (yrun p s y) = run p s.
+Proof.
+  induction p as [a|e|k IH|k IH|k IH|k IH|b k IH|d l k IH|k IH|d k IH|k IH]; intros s y; cbn [yrun run].
+  - reflexivity.
+  - reflexivity.
+  - destruct (a_in s); [reflexivity | apply IH].
+  - destruct (Nat.leb _ _); [apply IH | reflexivity].
+  - apply IH.
+  - apply IH.
+  - apply IH.
+  - destruct (_ && _); [apply IH | reflexivity].
+  - apply IH.
+  - apply IH.
+  - apply IH.
+Qed.
+
+(* the final status comes together with the last decoded bytes: some output
+   lies after the last hand-over without status (window full: every
+   maxHistSize bytes; empty stored block that is not the final block) *)
+Definition zr_joined (input : list byte) : bool :=
+  let '(r, (yprev, ylast, ypos)) :=
+    yrun (inflate_prog (depth_for (length input))) (ast_init (bytes_to_bits input)) (0, 0, 0) in
+  let total := a_len (res_state r) in
+  let y := match r with
+           | Done _ s => if ypos =? a_pos s then yprev else ylast   (* the final block was an empty stored block *)
+           | Fail _ _ => ylast
+           end in
+  N.max y (total / maxHistSize * maxHistSize) <? total.
+
 Definition open_chunk (data : list byte) (off csize : N) : zrd :=
   let raw := slice data off csize in
   let r := inflate (raw ++ endBlock) in
   mkZr (ir_out r) 0
        (match ir_err r with None => None | Some e => Some e end)
-       (ir_used r) (is_sync raw).
+       (ir_used r) (is_sync raw) (zr_joined (raw ++ endBlock)).
 
 (* Seek (after repair D1) *)
 Definition seek_core (fixed : bool) (s : xr) (offset whence : Z) : (Z * option err) * xr :=
@@ -250,7 +322,7 @@ Definition open_reader (data : list byte) : err + xr :=
         match append_record recs (zN footSize) 0 footerType with
         | None => inl ECorrupted
         | Some recs' =>
-          let s0 := mkXR data recs' 0 0 0 (0, 0, 0)%Z (mkZr [] 0 None 0 false) None log' in
+          let s0 := mkXR data recs' 0 0 0 (0, 0, 0)%Z (mkZr [] 0 None 0 false false) None log' in
           let '(_, s1) := seek s0 0 0 in
           inr s1
         end
@@ -266,7 +338,7 @@ Definition zr_read (z : zrd) (n : N) : (list byte * option (option err)) * zrd :
     let chunk := firstn (N.to_nat n) (z_rest z) in
     ((chunk, None),
      mkZr (skipn (N.to_nat n) (z_rest z)) (z_outoff z + N.of_nat (length chunk))
-          (z_end z) (z_used z) (z_sync_ok z))
+          (z_end z) (z_used z) (z_sync_ok z) (z_joined z))
   end.
 
 (* end-of-chunk verification, then move to the next chunk *)
@@ -287,8 +359,19 @@ Definition chunk_end (s : xr) : xr :=
              (Some EEOF) (r_log s1)
       else s1.
 
+(* the decompressor has handed over all its bytes and returns its status with them *)
+Definition zr_status_now (z : zrd) : bool :=
+  z_joined z && match z_rest z with [] => true | _ => false end.
+
+Definition latch_err (s : xr) (e : err) : xr :=
+  mkXR (r_data s) (r_recs s) (r_ri s) (r_offset s) (r_discard s) (r_chk s) (r_zr s) (Some e) (r_log s).
+
 (* Read asking for n bytes in total ("ReadFull" granularity): delivered
-   bytes and the error that stopped it, if fewer than n were delivered *)
+   bytes and the error that stopped it, if fewer than n were delivered.
+   One call of the Go Read ends with the first zr.Read that returns bytes or
+   an error; if that zr.Read returns bytes TOGETHER with its final status
+   (zr_status_now), Read acts on the status in the same call: an error is
+   latched at once, io.EOF runs the end-of-chunk checks at once. *)
 Fixpoint read_loop (fuel : nat) (s : xr) (n : N) (acc : list byte) : (list byte * option err) * xr :=
   match fuel with
   | O => ((acc, Some EFuel), s)
@@ -301,9 +384,14 @@ Fixpoint read_loop (fuel : nat) (s : xr) (n : N) (acc : list byte) : (list byte 
       if (0 <? r_discard s)%Z then
         let d := Z.to_N (r_discard s) in
         let avail := N.of_nat (length (z_rest (r_zr s))) in
-        if d <=? avail then
-          let z := r_zr s in
-          let z' := mkZr (skipn (N.to_nat d) (z_rest z)) (z_outoff z + d) (z_end z) (z_used z) (z_sync_ok z) in
+        let z := r_zr s in
+        (* io.Copy stops at an error that comes with the last discarded bytes
+           (an io.EOF that comes with them ends the copy normally) *)
+        let err_with_last := (d =? avail) && z_joined z &&
+                             match z_end z with Some _ => true | None => false end in
+        if (d <=? avail) && negb err_with_last then
+          let z' := mkZr (skipn (N.to_nat d) (z_rest z)) (z_outoff z + d) (z_end z) (z_used z) (z_sync_ok z)
+                         (z_joined z) in
           read_loop f (mkXR (r_data s) (r_recs s) (r_ri s) (r_offset s) 0 (r_chk s) z' None (r_log s)) n acc
         else
           (* the chunk ends before the discard is done: its own error, or
@@ -317,7 +405,11 @@ Fixpoint read_loop (fuel : nat) (s : xr) (n : N) (acc : list byte) : (list byte 
         | None =>
           let s' := mkXR (r_data s) (r_recs s) (r_ri s) (r_offset s + zN (N.of_nat (length chunk)))%Z
                          0 (r_chk s) z' None (r_log s) in
-          read_loop f s' (n - N.of_nat (length chunk)) (acc ++ chunk)
+          let n' := n - N.of_nat (length chunk) in
+          if zr_status_now z' then
+            let s'' := match z_end z' with Some e => latch_err s' e | None => chunk_end s' end in
+            if n' =? 0 then ((acc ++ chunk, None), s'') else read_loop f s'' n' (acc ++ chunk)
+          else read_loop f s' n' (acc ++ chunk)
         | Some (Some e) =>
           ((acc, Some e),
            mkXR (r_data s) (r_recs s) (r_ri s) (r_offset s) 0 (r_chk s) z' (Some e) (r_log s))
